@@ -8,11 +8,12 @@ CONSTANTS
   MapInit = 10
   Chunk = 10
   PutCost = 1
+  TxnBeforeGate = FALSE
   BatchMax = 1
   MaxOps = 45
   WithReads = FALSE
   Stride = 1
   Offset = 0
 VIEW View
-INVARIANTS TypeOK ShadowAgrees LookupTopDown NoMapFull
+INVARIANTS TypeOK ShadowAgrees LookupTopDown NoMapFull WaiterOwnsNothing
 PROPERTIES CommitAtomic ChildFolds DropNoTrace SnapStable ResizeStutter CrashDurable ResizeGate
